@@ -181,10 +181,12 @@ func (t *TargetsManager) doCallbacks() error {
 
 func (t *TargetsManager) saveTargets() error {
 	data, _ := json.Marshal(&t.targets)
-	if err := ioutil.WriteFile(t.storePath(), data, 0755); err != nil {
+	// write a temporary file and rename it: a write that is cut short must never leave a partial store file
+	tmp := t.storePath() + ".tmp"
+	if err := ioutil.WriteFile(tmp, data, 0755); err != nil {
 		return err
 	}
-	return nil
+	return os.Rename(tmp, t.storePath())
 }
 
 func (t *TargetsManager) storePath() string {
